@@ -12,16 +12,17 @@ from . import c05
 
 PROPERTY = 'C16'
 EXPLANATION = (
-    'Decided from source: (C16.1) domain guards: for every function with a restricted domain the body is partially evaluated at '
-    'the critical points of its domain (just outside, on and just inside each boundary, and a huge argument for the functions that '
-    'overflow): outside the domain an Excel error must be raised, inside none; library calls are not executed; (C16.2) rounding '
-    'directions: the decimal rounding mode that reaches _round on each path of ROUND/ROUNDUP/ROUNDDOWN/INT (sign guard evaluated '
-    'at -1.5, 0, 1.5), _round itself (Decimal(str(x)) rounded under a local context with that mode), truncation toward zero of '
-    'Number.__trunc__ and the even-integer step of EVEN at the critical points around even integers; (C16.3) the rounding family '
-    'rounds in decimal: the value enters Decimal through str() and is not scaled by a power of ten or divided by the significance '
-    'in binary floating point before floor/ceil/trunc; (C16.4) ATAN2(x, y) hands y to the first parameter of arctan2; (C16.5) '
-    'the rounding mode is set only inside decimal.localcontext().'
-    ' (C16.6) ROUND/ROUNDUP/ROUNDDOWN/INT and POWER as the evaluator calls them, decimal arithmetic folded: half away from zero at every digit count, no Python-level exception for large magnitudes or many digits, negative bases with whole-valued exponents however stored; (C16.2) _round itself on witnesses, the process-wide decimal context untouched.')
+    'Decided from source, mostly by interpreting the functions as the evaluator calls them with decimal arithmetic '
+    'folded: (C16.1) domain guards at the critical points of each restricted domain (outside: Excel error; inside: '
+    'none) - known finding F29; (C16.2) rounding directions on values: ROUND half away from zero, ROUNDUP away from '
+    'zero, ROUNDDOWN toward zero, INT toward minus infinity at half-way and near points on both sides of zero for '
+    '1, 0, -1 digits; _round itself on witnesses (shortest decimal form of the float, requested mode and digits, '
+    'process-wide decimal context untouched); Number.__trunc__ and EVEN tables; (C16.3) TRUNC / FLOOR / CEILING and '
+    'the ROUND family on arguments whose binary form is a hair off the decimal one give the decimal result (known '
+    'finding F30 for TRUNC, FLOOR, CEILING); (C16.4) ATAN2(x, y) hands y to the first parameter of arctan2; (C16.5) '
+    'the rounding mode is set only inside decimal.localcontext(); (C16.6) ROUND/ROUNDUP/ROUNDDOWN/INT for large '
+    'magnitudes and many digits (no Python-level exception) and POWER with negative bases and whole-valued '
+    'exponents however stored.')
 NOT_DECIDED = 'agreement with IEEE/decimal reference values (numeric)'
 TRUSTED = ['argument conventions of numpy.arctan2 and of the decimal rounding modes']
 
